@@ -555,12 +555,55 @@ class Symex:
                 if it.optional_vars is not None:
                     self.assign(it.optional_vars, v)
             self.block(s.body)
+        elif isinstance(s, ast.Match):
+            self.match_stmt(s)
         elif isinstance(s, ast.Nonlocal):
             self.frames[-1].setdefault("$nonlocal", set()).update(s.names)
         elif isinstance(s, ast.Global):
             self.unsupported(s)
         else:
             self.unsupported(s)
+
+    def match_stmt(self, s):
+        """``match`` with value, singleton, capture, wildcard, or- and fixed-length sequence patterns."""
+        subject = self.ev(s.subject)
+        for case in s.cases:
+            binds = {}
+            if self._match(case.pattern, subject, binds, s):
+                saved = dict(self.frames[-1])
+                self.frames[-1].update(binds)
+                if case.guard is not None and not self.truth(self.ev(case.guard), case.guard):
+                    self.frames[-1].clear()
+                    self.frames[-1].update(saved)
+                    continue
+                self.block(case.body)
+                return
+
+    def _match(self, pat, v, binds, node):
+        if isinstance(pat, ast.MatchValue):
+            return self.truth(self.compare("==", v, self.ev(pat.value), node), node)
+        if isinstance(pat, ast.MatchSingleton):
+            return self.truth(self.compare("is", v, pat.value, node), node)
+        if isinstance(pat, ast.MatchAs):
+            if pat.pattern is not None and not self._match(pat.pattern, v, binds, node):
+                return False
+            if pat.name is not None:
+                binds[pat.name] = v
+            return True
+        if isinstance(pat, ast.MatchOr):
+            for p in pat.patterns:
+                b = {}
+                if self._match(p, v, b, node):
+                    binds.update(b)
+                    return True
+            return False
+        if isinstance(pat, ast.MatchSequence) and not any(isinstance(p, ast.MatchStar) for p in pat.patterns):
+            if not isinstance(v, (list, tuple)) or len(v) != len(pat.patterns):
+                if isinstance(v, T):
+                    self.unsupported(node, "sequence pattern on a symbolic value")
+                return False
+            return all(self._match(p, x, binds, node) for p, x in zip(pat.patterns, v))
+        self.unsupported(node, f"match pattern {type(pat).__name__}")
 
     def _assume_true(self, c):
         if c.op == "and":
